@@ -22,7 +22,7 @@ WALL = {"quick": 280, "thorough": 3500}
 RULE = ("one run = document + history of adds/renames to fresh and used identifiers + removals; "
         "distinct = distinct (namespace digest, op) pairs")
 PROBES = ["dup_same_type", "dup_other_type", "dup_vs_id_tag", "rename_used", "rename_fresh", "group_merge",
-          "int_names", "unused_name", "lookup_unused", "complement_link", "mention_clash"]
+          "int_names", "unused_name", "lookup_unused", "complement_link", "mention_clash", "self_mention"]
 
 
 def gen(streams, tier, i):
@@ -103,6 +103,19 @@ def gen(streams, tier, i):
             m.add_text(ln)
         elif r < 0.70:
             ops.append({"op": "unused_name"})
+        elif r < 0.715:
+            # a line which uses its own (fresh) identifier to refer to another line
+            x = sh.fresh(hr)
+            segs = [q for q in names if ns[q][0].rt == "S"]
+            y = hr.choice(segs) if segs else sh.fresh(hr)
+            if version == "gfa1":
+                ln = hr.choice(["L\t%s\t+\t%s\t-\t*\tID:Z:%s" % (x, y, x), "C\t%s\t+\t%s\t+\t0\t*\tID:Z:%s" % (y, x, x),
+                                "P\t%s\t%s+,%s+\t*" % (x, y, x)])
+            else:
+                ln = hr.choice(["E\t%s\t%s+\t%s-\t0\t1\t0\t1\t*" % (x, x, y), "E\t%s\t%s+\t%s-\t0\t1\t0\t1\t*" % (x, y, x),
+                                "G\t%s\t%s+\t%s-\t10\t*" % (x, x, x), "O\t%s\t%s+ %s+" % (x, y, x),
+                                "U\t%s\t%s %s" % (x, x, y)])
+            ops.append({"op": "add", "line": ln, "as": hr.choice(["str", "obj"])})
         elif r < 0.74 and any(ns[x][0].rt != "S" for x in names):
             # a line mentions, where a segment is expected, an identifier carried by a line of another type:
             # accepting it would put a placeholder segment of the same name into the namespace
@@ -150,6 +163,8 @@ def expected_add(m, line):
         return "notunique"
     if res == ("fail", "mention-clash"):
         return "mention-clash"
+    if res == ("fail", "self-mention"):
+        return "self-mention"
     return None
 
 
@@ -245,9 +260,16 @@ def run(scn, st):
                                          (n, op["line"], nm, prev.render(),
                                           "was accepted" if out.ok else "raised %s" % out.excname),
                                          op=kind, rt=pl.rt, prev=prev.rt, exc=out.excname)
+            elif exp == "self-mention":
+                st.count("probe.self_mention")
+                if out.ok:
+                    raise core.Violation("self-mention-accepted",
+                                         "step %d: the group %r lists itself and was accepted" % (n, op["line"]),
+                                         op=kind, rt=pl.rt)
             elif exp == "mention-clash":
                 st.count("probe.mention_clash")
-                if out.ok or out.excname != "NotUniqueError":
+                selfm = nm is not None and pl.rt in ("O", "U") and nm in m.mentions(pl)   # also lists itself
+                if out.ok or (out.excname != "NotUniqueError" and not (selfm and out.excname == "RuntimeError")):
                     raise core.Violation("mention-clash-accepted",
                                          "step %d: %r uses, where a segment is expected or as its own name, an identifier "
                                          "which a line of another type carries or mentions; it %s" %
